@@ -596,8 +596,8 @@ fn generate_cover(seed: u64) -> Scenario {
                     Op::K { d: dbig, lon: lo, lat: la, r: rng.uniform(0.3, 3.3) }
                 }
                 8 => {
-                    let dd = if d >= 28 { 0 } else { rng.range(1, 2) as u8 };
-                    let a = (cs * f * 0.5).min(1.0);
+                    let dd = if d >= 28 { 0 } else { 1 };
+                    let a = (cs * f * 0.25).min(1.0);
                     Op::Ec { d: d.min(29 - dd), dd, lon: lo, lat: la, a, b: a * rng.uniform(0.4, 1.0), pa: rng.uniform(0.0, std::f64::consts::PI) }
                 }
                 0..=3 => Op::K { d, lon: lo, lat: la, r: (cs * f).min(1.5) },
